@@ -13,7 +13,8 @@ run_one() {
   pkg=$(python3 -c "import json;print(json.load(open('$d/meta.json'))['demo']['place_in'])")
   checks=$(python3 -c "import json;print(' '.join(json.load(open('$d/meta.json'))['checks']))")
   tmp="/tmp/seedwt/$id.mdir"; rm -rf "$tmp"; mkdir -p "$tmp"; cp "$d"/patch.diff "$d"/*_test.go "$tmp"/ 2>/dev/null
-  line=$(WT="$w" "$VERIF_ROOT/tools/seedcheck.sh" "${id%%-*}" "$tmp" "$pkg" $checks 2>&1 | tail -1)
+  flags=$(python3 -c "import json;print(json.load(open('$d/meta.json'))['demo'].get('flags',''))")
+  line=$(DEMO_FLAGS="$flags" WT="$w" "$VERIF_ROOT/tools/seedcheck.sh" "${id%%-*}" "$tmp" "$pkg" $checks 2>&1 | tail -1)
   echo "$line"
   python3 - "$d" "$line" "$(git -C /repo rev-parse --short HEAD)" "$(git -C "$VERIF_ROOT" rev-parse --short HEAD)" <<'PY'
 import sys,json,re
